@@ -55,6 +55,7 @@ FRAGMENTS = {
     # longer pieces for the elastic-network options (C15): one chain of ten residues; two chains of four and three residues
     'bta3-12': ('1bta.pdb', [('A', 3, 12)]),
     'bta-two-chains-6': ('1bta.pdb', [('A', 3, 8, 'A'), ('A', 19, 21, 'B')]),
+    'bta15-22': ('1bta.pdb', [('A', 15, 18, 'A'), ('A', 19, 22, 'B')]),        # two chains that touch (consecutive in the protein)
 }
 OPTIONS = {
     'default': [],
